@@ -1,8 +1,8 @@
 SPECIFICATION Spec
 CONSTANTS
   MaxSources = 7
-  FormatSet = {"nt", "tsv_spo", "n3", "turtle", "xml", "json-ld", "turtle_iter", "bogus"}
-  CompSet = {"none", "gz", "zip", "xz", "bogus"}
-  ExampleSet = {"none", "shape", "cons", "all", "bogus"}
+  FormatSet = {"nt", "tsv_spo", "n3", "turtle", "xml", "json-ld", "turtle_iter", "bogus", "NT", "Turtle", "N3", "ttl", "rdf/xml", ""}
+  CompSet = {"none", "gz", "zip", "xz", "bogus", "GZ", "Zip", "gzip", ""}
+  ExampleSet = {"none", "shape", "cons", "all", "bogus", "ALL", "Shape", "constraint", ""}
 INVARIANT CtorAgrees
 INVARIANT CallAgrees
